@@ -32,7 +32,7 @@ ANCHORS = [
     "acnportal.acnsim.network.current:Current.__sub__",
     "acnportal.acnsim.network.current:Current.__mul__",
 ]
-REQUIRED = ["op:accumulate_then_scale_in_place", "queries_over_thousands_of_periods", "op:add", "op:remove", "op:update", "op:update_rename", "op:register_refused", "op:register_refused_existing_id", "op:refused_add_unknown_station", "op:refused_remove_unknown_name", "op:refused_update_unknown_name", "subset_queries",
+REQUIRED = ["op:update_with_a_current_derived_from_the_registered_object", "tree:same_station_set_in_different_orders", "subset_queries_with_unsorted_or_repeated_periods", "op:accumulate_then_scale_in_place", "queries_over_thousands_of_periods", "op:add", "op:remove", "op:update", "op:update_rename", "op:register_refused", "op:register_refused_existing_id", "op:refused_add_unknown_station", "op:refused_remove_unknown_name", "op:refused_update_unknown_name", "subset_queries",
             "tree:+", "tree:-", "tree:*left", "tree:*right", "tree:scalar_multiple_as_operand", "leaf:dict",
             "leaf:list", "leaf:str", "leaf:series", "leaf:tiny_coefficient"]
 BUDGET_S = {"quick": 200, "thorough": 2400}
@@ -64,6 +64,17 @@ def _tree(rng, ids, depth, obs, stats):
             obs.ev("leaf:tiny_coefficient")
         return (Current(d) if form == "dict" else Current(pd.Series(d))), {k: float(v) for k, v in d.items()}
     op = rng.choice(["+", "-", "*"])
+    if op != "*" and rng.random() < 0.15 and len(ids) >= 2:
+        # both operands name exactly the same stations, listed in different orders, with different coefficients
+        sub = rng.sample(ids, rng.randint(2, len(ids)))
+        ma = {s_: rng.choice([1, -1, 0.5, 2, 0.25, 3]) for s_ in sub}
+        mb = {s_: rng.choice([1, -1, 0.5, 2, 0.25, 7]) for s_ in reversed(sub)}
+        a, b = Current(dict(ma)), Current(pd.Series(mb) if rng.random() < 0.5 else dict(mb))
+        obs.ev("tree:same_station_set_in_different_orders")
+        stats["binary"] += 1
+        if op == "+":
+            return a + b, {s_: ma[s_] + mb[s_] for s_ in sub}
+        return a - b, {s_: ma[s_] - mb[s_] for s_ in sub}
     if op == "*":
         c, m = _tree(rng, ids, depth - 1, obs, stats)
         k = rng.choice([2, 0.25, -1, 3, 0.5])
@@ -109,6 +120,7 @@ def run_case(case, obs):
     log = []
     cnt = 0
     stats = {"subsets": set(), "binary": 0, "last_scalar": False}
+    objs = {}   # name -> (the Current object handed to add_constraint, its coefficients)
     had_rm_upd = False
 
     def check(tag):
@@ -206,6 +218,7 @@ def run_case(case, obs):
             log.append(["add", nm, m, lim])
             net.add_constraint(c, lim, nm)
             model[nm] = (m, lim)
+            objs[nm] = (c, m)
             order.append(nm)
             obs.ev("op:add")
         elif op == "acc":
@@ -261,6 +274,19 @@ def run_case(case, obs):
         elif op == "update":
             nm = rng.choice(order)
             c, m = _tree(rng, ids, rng.randint(0, 3), obs, stats)
+            how_ = rng.random()
+            if nm in objs and how_ < 0.45:
+                # the new Current is DERIVED from the very object that was registered under this name (a scalar multiple, the object
+                # plus / minus something, a relative tweak far below any 'unchanged' threshold a shortcut might use)
+                oc, om = objs[nm]
+                if how_ < 0.15:
+                    k_ = rng.choice([0.5, 2, -1, 1 + 4e-7, 1 - 3e-8])
+                    c, m = k_ * oc, {s_: k_ * v_ for s_, v_ in om.items()}
+                elif how_ < 0.3:
+                    c, m = oc + c, {s_: om.get(s_, 0) + m.get(s_, 0) for s_ in set(om) | set(m)}
+                else:
+                    c, m = oc - c, {s_: om.get(s_, 0) - m.get(s_, 0) for s_ in set(om) | set(m)}
+                obs.ev("op:update_with_a_current_derived_from_the_registered_object")
             if c is None or not hasattr(c, "index"):
                 obs.violate("current_algebra_returned_non_current", f"expression evaluated to {type(c).__name__}", ops=log[-6:])
                 return
@@ -272,6 +298,8 @@ def run_case(case, obs):
             del model[nm]
             order.remove(nm)
             model[new or nm] = (m, lim)
+            objs.pop(nm, None)
+            objs[new or nm] = (c, m)
             order.append(new or nm)   # an updated constraint is re-added: it moves to the end
             had_rm_upd = True
             obs.ev("op:update_rename" if new else "op:update")
@@ -312,6 +340,11 @@ def run_case(case, obs):
             sub = rng.sample(order, rng.randint(1, len(order)))
             rng.shuffle(sub)
             ti = sorted(rng.sample(range(T), rng.randint(1, T)))
+            unsorted_ti = False
+            if T >= 3 and rng.random() < 0.25:
+                ti = [rng.randrange(T) for _ in range(rng.randint(2, T + 2))]  # any order, repetitions allowed
+                ti[0], ti[-1] = min(ti), max(ti)
+                unsorted_ti = ti != sorted(set(ti))
             linear = rng.random() < 0.3
             got = np.asarray(net.constraint_current(np.array(S), constraints=sub, time_indices=ti, linear=linear))
             names = [nm for nm in order if nm in sub]
@@ -327,6 +360,16 @@ def run_case(case, obs):
                 exp.append(rowv)
             exp = np.array(exp)
             obs.ev("subset_queries")
+            if unsorted_ti:
+                # periods listed out of order / more than once: the columns of exactly those periods, in the listed or in ascending
+                # order (both are 'the corresponding columns'); anything else is not
+                obs.ev("subset_queries_with_unsorted_or_repeated_periods")
+                order_ = np.argsort(ti, kind="stable")
+                if got.shape == exp.shape and (np.allclose(got, exp, rtol=1e-9, atol=1e-9) or np.allclose(got, exp[:, order_], rtol=1e-9, atol=1e-9)):
+                    continue
+                obs.violate("subset_current", f"constraints={sub} time_indices={ti} linear={linear}: the result holds neither the listed periods' "
+                            f"columns nor those columns in ascending order (shape {got.shape} vs {exp.shape})", ops=log[-8:], stations=ids)
+                return
             if got.shape != exp.shape or not np.allclose(got, exp, rtol=1e-9, atol=1e-9):
                 obs.violate("subset_current", f"constraints={sub} time_indices={ti} linear={linear}: got {got.tolist()} expected {exp.tolist()}",
                             ops=log[-8:], stations=ids)
